@@ -83,7 +83,7 @@ theorem classVals_OK (r : ClassRow) (hn : r.name.length ≤ 64) : AllOK pgClassC
 def classBss (r : ClassRow) : List Bytes :=
   [le 4 r.oid, r.name ++ zeros (64 - r.name.length), le 4 r.nsp, le 4 (if r.kind = 114 then r.oid + 2 else 0), le 4 0, le 4 10,
    le 4 (if r.kind = 114 ∨ r.kind = 116 ∨ r.kind = 109 then 2 else if r.kind = 105 then 403 else 0),
-   le 4 r.filenode, le 4 0, le 4 (ofSigned 32 r.pages), le 4 r.tuples, le 4 (ofSigned 32 0),
+   le 4 r.filenode, le 4 r.tblspc, le 4 (ofSigned 32 r.pages), le 4 r.tuples, le 4 (ofSigned 32 0),
    le 4 r.toast, [if r.hasIndex then 1 else 0], [if false then 1 else 0], [UInt8.ofNat r.persistence], [UInt8.ofNat r.kind]]
 
 theorem classBss_vals (r : ClassRow) : (classBss r).map (fun bs => some (Datum.fixed bs)) = (classVals r).take 17 := rfl
